@@ -44,7 +44,7 @@ type World struct {
 }
 
 type Op struct {
-	Op  string `json:"op"` // lookup info use release loadref resolve probe
+	Op  string `json:"op"`          // lookup info use release loadref resolve probe
 	K   string `json:"k,omitempty"` // lookup: diff | blob
 	R   int    `json:"r"`
 	T   int    `json:"t,omitempty"`
@@ -60,15 +60,15 @@ type Case struct {
 }
 
 type Obs struct {
-	Res     string     `json:"res"` // ok fail infoempty infofull count err
-	N       int        `json:"n,omitempty"`
-	Chk     bool       `json:"chk"` // state dump valid (false for non-final members of a concurrent group)
-	Layers  [][3]int   `json:"layers,omitempty"`
-	Counts  [][3]int   `json:"counts,omitempty"`
-	Memo    [][3]int   `json:"memo,omitempty"`
-	Pool    [][2]int   `json:"pool,omitempty"`
-	Manif   []int      `json:"manif,omitempty"`
-	Empties int        `json:"empties,omitempty"`
+	Res     string   `json:"res"` // ok fail infoempty infofull count err
+	N       int      `json:"n,omitempty"`
+	Chk     bool     `json:"chk"` // state dump valid (false for non-final members of a concurrent group)
+	Layers  [][3]int `json:"layers,omitempty"`
+	Counts  [][3]int `json:"counts,omitempty"`
+	Memo    [][3]int `json:"memo,omitempty"`
+	Pool    [][2]int `json:"pool,omitempty"`
+	Manif   []int    `json:"manif,omitempty"`
+	Empties int      `json:"empties,omitempty"`
 }
 
 // ---------------------------------------------------------------------------------------------
@@ -285,8 +285,10 @@ func (f *memFetcher) Fetch(ctx context.Context, off int64, size int64) (io.ReadC
 	}
 	return io.NopCloser(bytes.NewReader(f.data[off:end])), nil
 }
-func (f *memFetcher) Check() error                       { return nil }
-func (f *memFetcher) GenID(off int64, size int64) string { return fmt.Sprintf("%s-%d-%d", f.d, off, size) }
+func (f *memFetcher) Check() error { return nil }
+func (f *memFetcher) GenID(off int64, size int64) string {
+	return fmt.Sprintf("%s-%d-%d", f.d, off, size)
+}
 
 func (g *registry) setFaults(mf bool, fl []int) {
 	g.mu.Lock()
@@ -514,19 +516,16 @@ func (d dump) hasManifest(r int) bool {
 	return false
 }
 
-// quiesce waits until every resolveLayer goroutine spawned by getLayer for ref r has recorded its result
-// (getLayer returns as soon as one goroutine found the layer; the others keep running).
-func (m *machine) quiesce(r int) {
-	deadline := time.Now().Add(10 * time.Second)
-	for {
-		if m.dump().memoComplete(r, m.image(r)) {
-			return
-		}
+// quiesce waits until every resolveLayer goroutine spawned by getLayer has returned
+// (getLayer returns as soon as one goroutine found the layer; the others keep running or have not even started).
+func (m *machine) quiesce() {
+	deadline := time.Now().Add(20 * time.Second)
+	for store.VerifResolvePending() != 0 {
 		if time.Now().After(deadline) {
-			m.fail("", "resolution of ref %d did not complete within 10s", r)
+			m.fail("", "resolution did not complete within 20s")
 			return
 		}
-		time.Sleep(50 * time.Microsecond)
+		time.Sleep(20 * time.Microsecond)
 	}
 }
 
@@ -666,12 +665,6 @@ func (m *machine) run(ops []Op) []Obs {
 			grp := ops[i:j]
 			m.g.setFaults(o.Mf, o.Fl)
 			res := make([]bool, len(grp))
-			miss := false
-			for _, x := range grp {
-				if !pre.cached(x.R, x.T) {
-					miss = true
-				}
-			}
 			if len(grp) == 1 {
 				res[0] = m.lookup(o.R, o.T)
 			} else {
@@ -685,10 +678,7 @@ func (m *machine) run(ops []Op) []Obs {
 				}
 				wg.Wait()
 			}
-			// resolution goroutines were spawned iff some lookup missed the cache and the manifest could be loaded
-			if miss && (pre.hasManifest(o.R) || (!o.Mf && o.R >= 0 && o.R < len(m.w.Images))) {
-				m.quiesce(o.R)
-			}
+			m.quiesce()
 			m.noteInjected(o.R)
 			m.g.setFaults(false, nil)
 			d := m.dump()
@@ -896,10 +886,10 @@ func coqObs(o Obs) string {
 	case "count":
 		res = fmt.Sprintf("(RCount %s)", hx.CoqZ(int64(o.N)))
 	}
-	t3 := func(xs [][3]int, last func(int) string) string {
+	t3 := func(ctor string, xs [][3]int, last func(int) string) string {
 		s := make([]string, len(xs))
 		for i, x := range xs {
-			s[i] = fmt.Sprintf("(%d, %d, %s)", x[0], x[1], last(x[2]))
+			s[i] = fmt.Sprintf("%s %d %d %s", ctor, x[0], x[1], last(x[2]))
 		}
 		return hx.CoqList(s)
 	}
@@ -908,9 +898,9 @@ func coqObs(o Obs) string {
 	b := func(x int) string { return hx.CoqBool(x != 0) }
 	ps := make([]string, len(o.Pool))
 	for i, x := range o.Pool {
-		ps[i] = fmt.Sprintf("(%d, %s)", x[0], hx.CoqZ(int64(x[1])))
+		ps[i] = fmt.Sprintf("tp %d %s", x[0], hx.CoqZ(int64(x[1])))
 	}
-	return fmt.Sprintf("mkObs %s %s %s %s %s %s %s %d", res, hx.CoqBool(o.Chk), t3(o.Layers, nat), t3(o.Counts, z), t3(o.Memo, b),
+	return fmt.Sprintf("mkObs %s %s %s %s %s %s %s %d", res, hx.CoqBool(o.Chk), t3("tl", o.Layers, nat), t3("tc", o.Counts, z), t3("tm", o.Memo, b),
 		hx.CoqList(ps), hx.CoqNatList(o.Manif), o.Empties)
 }
 
@@ -993,7 +983,7 @@ func genCase(r *hx.Rng, tier string) Case {
 		if ref < len(w.Images) {
 			img = w.Images[ref]
 		}
-		switch r.Pick(70, 12, 6, 6, 6) {
+		switch r.Pick(82, 8, 3, 4, 3) {
 		case 0:
 			if len(img) > 0 {
 				l := img[r.Intn(len(img))]
@@ -1026,6 +1016,7 @@ func genCase(r *hx.Rng, tier string) Case {
 		return fl
 	}
 	used := [][2]int{}
+	looked := [][2]int{}
 	grp := 0
 	for len(c.Ops) < nops {
 		ref := pickRef()
@@ -1035,11 +1026,24 @@ func genCase(r *hx.Rng, tier string) Case {
 			if r.Bool() {
 				k = "blob"
 			}
-			c.Ops = append(c.Ops, Op{Op: "lookup", K: k, R: ref, T: pickToc(ref), Mf: r.Chance(1, 8), Fl: faults(ref)})
+			t := pickToc(ref)
+			if ref < len(w.Images) {
+				for _, l := range w.Images[ref] {
+					if w.Ltoc[l] == t {
+						looked = append(looked, [2]int{ref, t})
+						break
+					}
+				}
+			}
+			c.Ops = append(c.Ops, Op{Op: "lookup", K: k, R: ref, T: t, Mf: r.Chance(1, 8), Fl: faults(ref)})
 		case 1:
 			c.Ops = append(c.Ops, Op{Op: "info", R: ref, T: pickToc(ref), Mf: r.Chance(1, 8)})
 		case 2:
 			t := pickToc(ref)
+			if len(looked) > 0 && r.Chance(7, 8) { // the normal client: use what was just looked up
+				x := looked[len(looked)-1-r.Intn(min(3, len(looked)))]
+				ref, t = x[0], x[1]
+			}
 			c.Ops = append(c.Ops, Op{Op: "use", R: ref, T: t})
 			used = append(used, [2]int{ref, t})
 		case 3:
@@ -1048,7 +1052,7 @@ func genCase(r *hx.Rng, tier string) Case {
 				u := used[j]
 				used = append(used[:j], used[j+1:]...)
 				c.Ops = append(c.Ops, Op{Op: "release", R: u[0], T: u[1]})
-			} else {
+			} else if r.Chance(1, 3) {
 				c.Ops = append(c.Ops, Op{Op: "release", R: ref, T: pickToc(ref)}) // possibly never used / double release
 			}
 		case 4:
